@@ -63,7 +63,7 @@ def do_import(src):
 
 
 def do_run(ids, all_checks, tier):
-    ids = ids or sorted(os.listdir(SEEDED))
+    ids = ids or sorted(d for d in os.listdir(SEEDED) if re.match(r"^C\d\d[a-z]$", d))
     manifest = json.load(open(os.path.join(VERIF, "MANIFEST.json")))
     allprops = [c["property_id"] for c in manifest["checks"]]
     results = {}
